@@ -63,6 +63,9 @@ pub fn gen_world(rng: &mut Rng, p: &GenParams) -> WorldSpec {
             // a long directory name with multi-byte characters wherever a fixed byte index, counted from
             // the start or from the end, could fall (the ASCII runs at both ends shift the alignment)
             format!("t{:02}-{}données-日本語-каталог-проекта-очень-длинное-имя{}", i, "x".repeat(rng.below(4)), "y".repeat(rng.below(4)))
+        } else if rng.chance(1, 10) {
+            // a hidden directory (`.github`, `.ci`): a leading dot is part of the name
+            format!(".h{:02}", i)
         } else {
             format!("t{:02}", i)
         };
